@@ -48,9 +48,31 @@ from guppylang_internals.nodes import (
 from guppylang_internals.span import Span, to_span
 from guppylang_internals.tys.ty import NoneType, UnitaryFlags
 
+
+class TmpVars(Iterator[str]):
+    """Endless stream of unique names for temporary variables.
+
+    The names only have to be unique within one compilation session, so the numbering
+    is restarted by `CompilationEngine.check`. Otherwise, the names a definition gets
+    (and with them the order in which `sort_vars` arranges the ports of its basic
+    blocks, e.g. `"%tmp10" < "%tmp9"`) would depend on everything that was compiled
+    earlier in the same Python process.
+    """
+
+    def __init__(self) -> None:
+        self._ids = itertools.count()
+
+    def __next__(self) -> str:
+        return f"%tmp{next(self._ids)}"
+
+    def reset(self) -> None:
+        """Restarts the numbering."""
+        self._ids = itertools.count()
+
+
 # In order to build expressions, need an endless stream of unique temporary variables
 # to store intermediate results
-tmp_vars: Iterator[str] = (f"%tmp{i}" for i in itertools.count())
+tmp_vars: TmpVars = TmpVars()
 
 
 def is_tmp_var(x: str) -> bool:
